@@ -416,6 +416,22 @@ theorem simplify_conditionals_keeps_grouping :
     simplifyParens .and (.paren (.or (.bcol 0 false) (.bcol 1 false))) = .paren (.or (.bcol 0 false) (.bcol 1 false)) ∧
     reparseSafe .and 0 .or = false := by decide
 
+/-- the parentheses are necessary for same-operator nesting that is not associative: `x - IF(TRUE, a - b, 0)` becomes
+    `x - (a - b)`, simplify_parens keeps that Paren, and a subtraction in the RIGHT slot of a subtraction is not
+    `reparseSafe` (`x - a - b` parses as `(x - a) - b`); AND / OR / + / * in the same slot are.  The variant that skips the
+    wrap for same-operator parents (`wrapForParentSkipSameOp`) leaves the bare `a - b` there. -/
+theorem wrap_needed_for_same_op_subtraction :
+    simplifyConditionals .sub (.iff (.bool true) (.sub (.icol 0 false) (.icol 1 false)) (.int 0))
+      = .paren (.sub (.icol 0 false) (.icol 1 false)) ∧
+    simplifyParens .sub (.paren (.sub (.icol 0 false) (.icol 1 false))) = .paren (.sub (.icol 0 false) (.icol 1 false)) ∧
+    reparseSafe .sub 1 .sub = false ∧
+    reparseSafe .add 1 .add = true ∧ reparseSafe .mul 1 .mul = true ∧ reparseSafe .and 1 .and = true ∧ reparseSafe .or 1 .or = true ∧
+    wrapForParentSkipSameOp (.sub (.icol 0 false) (.icol 1 false)) .sub = .sub (.icol 0 false) (.icol 1 false) ∧
+    (∃ env, eval env (.sub (.icol 2 false) (.sub (.icol 0 false) (.icol 1 false)))
+          ≠ eval env (.sub (.sub (.icol 2 false) (.icol 0 false)) (.icol 1 false))) :=
+  ⟨by decide, by decide, by decide, by decide, by decide, by decide, by decide, by decide,
+   ⟨⟨fun _ => none, fun _ => some 1⟩, by decide⟩⟩
+
 /-- `COALESCE(x) → x` and `COALESCE(<non-null constant>, …) → <that constant>` are exact -/
 theorem simplify_coalesce_head_sound (fl : Flags) (p : PK) (first rest : E) (env : Env) :
     eval env (simplifyCoalesce fl p (.coalesce (.cons first rest))) = eval env (.coalesce (.cons first rest)) := by
@@ -446,7 +462,8 @@ theorem simplify_coalesce_cmp_sound (op : Cmp) (left : Bool) (first rest other x
     cases h
     have hsplit := evalCoalesce_split env true rest pre c hs
       (endsCoalesce_ne_null env c (splitAtConst_ends true rest pre c hs)) first
-    have hthis : eval env (if pre = .nil then first else .coalesce (.cons first pre)) = evalCoalesce env (.cons first pre) := by
+    have hthis : eval env (wrapNotSubject (if pre = .nil then first else .coalesce (.cons first pre))) = evalCoalesce env (.cons first pre) := by
+      rw [eval_wrapNotSubject]
       split
       · rename_i hp; subst hp; simp only [evalCoalesce]; cases eval env first <;> rfl
       · rfl
@@ -474,6 +491,15 @@ example : coalesceRewrite true (some .eq) true (.icol 0 false) (.cons (.icol 1 f
         (mkAnd (.not (.is (.coalesce (.cons (.icol 0 false) (.cons (.icol 1 false) .nil))) .null))
                (.cmp .eq (.coalesce (.cons (.icol 0 false) (.cons (.icol 1 false) .nil))) (.int 2)))
         (mkAnd (.is (.coalesce (.cons (.icol 0 false) (.cons (.icol 1 false) .nil))) .null) (.cmp .eq (.int 1) (.int 2))))) := by decide
+
+/-- text level (b0a036f): a NOT guard subject stays grouped — `COALESCE(NOT b, TRUE) = TRUE` builds `(NOT b) IS NULL`, and a NOT
+    in the subject slot of IS is not `reparseSafe` -/
+theorem simplify_coalesce_not_subject_grouped :
+    coalesceRewrite true (some .eq) true (.not (.bcol 0 false)) (.cons (.bool true) .nil) (.bool true)
+      = some (.paren (mkOr
+          (mkAnd (.not (.is (.paren (.not (.bcol 0 false))) .null)) (.cmp .eq (.coalesce (.cons (.not (.bcol 0 false)) .nil)) (.bool true)))
+          (mkAnd (.is (.paren (.not (.bcol 0 false))) .null) (.cmp .eq (.bool true) (.bool true))))) ∧
+    reparseSafe .is 0 .not = false := by decide
 
 /-- why the guard subject must be the whole truncated COALESCE: with the first argument alone
     (`coalesceRewriteFirstArgGuard`) `COALESCE(x, y, 1) = 2` is FALSE for x NULL, y = 2 where the input is TRUE -/
